@@ -132,9 +132,15 @@ class BaseBlock(ABC):
         data_pad = np.ones((self.data.shape[0], nsamps_final), dtype=self.data.dtype)
         data_pad *= pad_values[:, None]
         data_pad[:, offset : offset + self.data.shape[1]] = self.data
+        # The block now begins ``offset`` samples before the first sample it held
         return self._derived(
             data_pad,
-            self.header.new_header({"nsamples": nsamps_final}),
+            self.header.new_header(
+                {
+                    "nsamples": nsamps_final,
+                    "tstart": self.header.mjd_after_nsamps(-offset),
+                },
+            ),
         )
 
     def _derived(self, data: np.ndarray, header: Header) -> Self:
